@@ -14,6 +14,7 @@
    escapes; everything else of C20 is runtime exploration and is labelled as such in the evidence.
 
      c20_levenshtein_no_panic      fuzzy_match.rs levenshtein_distance: every matrix[j][i], w1[i-1], w2[j-1] in bounds
+     c20_levenshtein_refines       ... and the matrix loops compute the Wagner-Fischer recurrence lev_rec
      c20_fuzzy_search_no_panic     fuzzy_search_limited (any key, candidate list, threshold) returns
      c20_fuzzy_search_candidate    ... and a suggestion is one of the candidates (or the fold's initial "")
      c20_fuzzy_fold_minimal        ... at minimal distance among all candidates
@@ -21,6 +22,8 @@
      c20_wildcard_refines          ... and the index-level loop computes the declarative matcher `wildcard` of C02
      c20_ip_in_range_no_panic      IPAddr::is_in_range on parsed addresses: PREFIX_MAX_LEN - prefix cannot underflow,
                                    and the checked code computes C07's ip_is_in_range
+     c20_contains_two_no_panic     ipaddr.rs contains_at_least_two, byte level: the slice offset is a char boundary for every string
+     c20_ip_strings_no_panic       ip(s1).isInRange(ip(s2)) from strings: no panic site on the way is reached
      c20_ip_prefix_bound           the parser establishes prefix <= width (the invariant the subtraction relies on)
      c20_ip_prefix_needed          ... and without it the subtraction would panic (the invariant is not vacuous)
      c20_display_extn_no_panic     est display of {"__extn":{"fn","args"}}: no panic for any function and arity
@@ -31,11 +34,19 @@
                                    arguments (finding F-b), and the repaired code agrees with it elsewhere        *)
 From Coq Require Import List ZArith NArith Bool String.
 Import ListNotations.
-From Cedar Require Import NoPanic NoPanicProofs NoPanicLike PolicySet PolicySetWF NoPanicPolicySet.
+From Cedar Require Import NoPanic NoPanicUtf8 NoPanicProofs NoPanicUtf8Proofs NoPanicLike NoPanicLev PolicySet PolicySetWF NoPanicPolicySet.
 
 Theorem c20_levenshtein_no_panic : forall w1 w2 : str, exists n, levenshtein w1 w2 = POk n.
 Proof. exact levenshtein_no_panic. Qed.
 Print Assumptions c20_levenshtein_no_panic.
+
+(* ... and the three loops over the matrix compute the Wagner-Fischer recurrence lev_rec (distance between the first i chars
+   of w1 and the first j chars of w2, by recursion on j and i): a refinement of the imperative code to the textbook
+   definition, for all words *)
+Theorem c20_levenshtein_refines : forall w1 w2 : str,
+  levenshtein w1 w2 = POk (lev_rec w1 w2 (List.length w2) (List.length w1)).
+Proof. exact levenshtein_refines. Qed.
+Print Assumptions c20_levenshtein_refines.
 
 Theorem c20_fuzzy_search_no_panic : forall (key : str) (lst : list str) (maxd : option N),
   exists o, fuzzy_search_limited key lst maxd = POk o.
@@ -73,6 +84,22 @@ Theorem c20_ip_in_range_no_panic : forall s1 s2 : str,
   POk (match ip_parse s1, ip_parse s2 with Some a, Some b => Some (ip_is_in_range a b) | _, _ => None end).
 Proof. exact ip_in_range_strs_no_panic. Qed.
 Print Assumptions c20_ip_in_range_no_panic.
+
+(* extensions/ipaddr.rs contains_at_least_two at BYTE level (`s.get(i + c.len_utf8()..).unwrap()`): `i + len_utf8(c)` is a
+   char boundary inside the string for EVERY string and char (the source has a Kani proof for length <= 6 only), and the
+   byte-level code computes the char-level model that C07's ip parser uses *)
+Theorem c20_contains_two_no_panic : forall (s : str) (c : N),
+  contains_at_least_two_checked s c = POk (contains_at_least_two s c).
+Proof. exact contains_at_least_two_checked_ok. Qed.
+Print Assumptions c20_contains_two_no_panic.
+
+(* ip(s1).isInRange(ip(s2)) from the two STRINGS with every panic site on the way explicit (byte-level slicing in the
+   parser, the prefix subtraction in is_in_range): never a panic, and the value is C07's *)
+Theorem c20_ip_strings_no_panic : forall s1 s2 : str,
+  ip_in_range_strs_checked s1 s2 =
+  POk (match ip_parse s1, ip_parse s2 with Some a, Some b => Some (ip_is_in_range a b) | _, _ => None end).
+Proof. exact ip_in_range_strs_checked_ok. Qed.
+Print Assumptions c20_ip_strings_no_panic.
 
 Theorem c20_ip_prefix_bound : forall (s : str) (a : ipaddr),
   ip_parse s = Some a -> (ip_prefix a <= ip_width (ip_v6 a))%N.
